@@ -25,6 +25,7 @@ VERIF_MSGS = [
     ('precondition not satisfied', 'precondition'),
     ('precondition not met', 'precondition'),
     ('assertion failed', 'assert'),
+    ('requires not satisfied', 'assert'),   # the `requires` of an `assert ... by (bit_vector / nonlinear_arith) requires ...`
     ('possible arithmetic underflow/overflow', 'overflow'),
     ('possible division by zero', 'div-by-zero'),
     ('possible bit shift underflow/overflow', 'shift'),
